@@ -582,7 +582,7 @@ class Interp:
             if m.group(1)[0] == 'i':
                 return bv((1 << (w - 1)) - 1 if m.group(2) == 'MAX' else -(1 << (w - 1)), w)
             return bv((1 << w) - 1 if m.group(2) == 'MAX' else 0, w)
-        m = re.fullmatch(r'(?:std|core)::(f32|f64)::(\w+)', c)
+        m = re.fullmatch(r'(?:std|core)::(f32|f64)::(\w+)', c) or re.fullmatch(r'(?:std|core)::f(?:32|64)::<impl (f32|f64)>::(\w+)', c)
         if m:
             so = F64 if m.group(1) == 'f64' else F32
             k = m.group(2)
@@ -1454,6 +1454,21 @@ class Interp:
             prov = self.provided_method(info.trait, method)
             if prov:
                 return prov, self.bind_provided(prov, self_ty, targs, gargs, ctx)
+            # serde::de::Visitor's documented defaults: owned / borrowed forms forward to the borrowed-slice form
+            fwd = {'visit_string': 'visit_str', 'visit_borrowed_str': 'visit_str', 'visit_byte_buf': 'visit_bytes', 'visit_borrowed_bytes': 'visit_bytes'}
+            if tname == 'Visitor' and method in fwd and fwd[method] in info.methods:
+                name = self.pick_dup(info, fwd[method], b, head, targs)
+                b2 = dict(b)
+                b2['Self'] = self_ty
+                tenv2 = self.bind_fn_generics(name, b2, gargs, ctx)
+                owned = method in ('visit_string', 'visit_byte_buf')
+
+                def forward(it, ctx_, a, s, name=name, tenv2=tenv2, owned=owned):
+                    a = list(a)
+                    if owned and not isinstance(a[1], Ptr):
+                        a[1] = s.ref(a[1])
+                    yield from it.invoke(name, a, s, tenv2, ctx_.fr.depth + 1)
+                return forward
         # foreign / harness Self type
         for key in ((head[1], tname, method), (last_seg(head[1]) if head[0] in ('path',) else head[0], tname, method), ('*', tname, method)):
             if key in self.tmodels:
